@@ -15,6 +15,7 @@ pub mod c41;
 pub mod c42;
 pub mod conv;
 pub mod gt;
+pub mod lp;
 pub mod oracle;
 pub mod perp;
 pub mod pure;
@@ -26,8 +27,11 @@ pub const REGISTRY: &[(&str, fn(&mut Ctx))] = &[
     ("C03", pure::run_c03),
     ("C04", c04::run_c04),
     ("C05", c04::run_c05),
+    ("C06", lp::run_c06),
     ("C07", perp::run_c07),
+    ("C08", lp::run_c08),
     ("C09", perp::run_c09),
+    ("C10", lp::run_c10),
     ("C11", pure::run_c11),
     ("C12", perp::run_c12),
     ("C13", perp::run_c13),
